@@ -330,10 +330,15 @@ def _run_norm(fold, q, w, cache):
         r = (q2, z3.simplify(o))
     elif is_concat(w):
         st, outs = q, []
-        for p in flat_parts(w):
+        parts = flat_parts(w)
+        for p in parts:
             st, o = _run_norm(fold, st, p, cache)
             outs.append(o)
         r = (st, cat(*outs))
+        if any(not (is_unit(p) or is_empty(p)) for p in parts):
+            # keep the unsplit application alive: F(q, a.b) == split form (instance of the defining equation),
+            # so that congruence with other known equalities on a.b still applies
+            cache.setdefault('bridges', []).append((fold, q, w, r))
     elif is_app(w, z3.Z3_OP_ITE):
         c, a, b = w.children()
         ra, rb = _run_norm(fold, q, a, cache), _run_norm(fold, q, b, cache)
@@ -385,6 +390,9 @@ def normalize(e, cache=None):
             w = _flatten_simplify(w)
             st, o = _run_norm(fold, q, w, runc)
             r = o if comp == 'o' else st[comp]
+        elif (d.kind() == z3.Z3_OP_UNINTERPRETED and name.startswith('rep_') and len(kids) == 1 and
+              z3.is_int_value(z3.simplify(kids[0]))):
+            r = cseq_to_z3([int(name[4:], 16)] * max(z3.simplify(kids[0]).as_long(), 0))
         else:
             if any(k.get_id() != c.get_id() for k, c in zip(kids, t.children())):
                 r = _rebuild(t, kids)
@@ -506,6 +514,8 @@ def prepare(assumptions, goal, rounds=12):
     ass = []
     for a in assumptions:
         ass.extend(_conjuncts(a))
+    bridges = []
+    seen_b = set()
     for _ in range(rounds):
         cache = {}
         ass = [z3.simplify(normalize(a, cache)) for a in ass]
@@ -514,6 +524,16 @@ def prepare(assumptions, goal, rounds=12):
             ass2.extend(_conjuncts(a))
         ass = [a for a in ass2 if not z3.is_true(a)]
         goal = z3.simplify(normalize(goal, cache))
+        for fold, q, w, r in cache.get('run', {}).get('bridges', []):
+            key = (fold.name, tuple(x.get_id() for x in q), w.get_id())
+            if key in seen_b:
+                continue
+            seen_b.add(key)
+            rq, ro = fold.raw(q, w)
+            for x, y in zip(rq, r[0]):
+                bridges.append(x == y)
+            bridges.append(ro == r[1])
+        ass = _unit_propagate(ass)
         pick = None
         for a in ass:
             if is_app(a, z3.Z3_OP_EQ):
@@ -528,9 +548,126 @@ def prepare(assumptions, goal, rounds=12):
             break
         a0, x, t = pick
         ass = [z3.substitute(a, (x, t)) for a in ass if a is not a0]
+        bridges = [z3.substitute(b, (x, t)) for b in bridges]
         goal = z3.substitute(goal, (x, t))
+    ass = ass + bridges
+    # definitional instances of rep(c, n) for the terms that occur (one level; sound: instances of the definition)
+    seen = {}
+    for e in ass + [goal]:
+        _collect_rep(e, seen, set())
+    for (ch, nid), n in list(seen.items()):
+        ass.append(rep_unfold(ch, n))
+    # empty-word instances of the fold equations for the applications that stayed opaque
+    apps = {}
+    for e in ass + [goal]:
+        _collect_fold_apps(e, apps, set())
+    for t in apps.values():
+        fold, comp = FOLDS[t.decl().name()]
+        kids = t.children()
+        w = kids[-1]
+        if comp == 'o':
+            ass.append(z3.Implies(w == z3.Empty(Str), t == z3.Empty(Str)))
+        else:
+            ass.append(z3.Implies(w == z3.Empty(Str), t == kids[comp]))
     return ass, goal
+
+
+def _collect_fold_apps(e, acc, visited):
+    if e.get_id() in visited:
+        return
+    visited.add(e.get_id())
+    if z3.is_app(e):
+        if e.decl().kind() == z3.Z3_OP_UNINTERPRETED and e.decl().name() in FOLDS and e.num_args() > 0:
+            w = e.children()[-1]
+            if not (is_empty(w) or is_unit(w) or is_concat(w)):
+                acc[e.get_id()] = e
+        for k in e.children():
+            _collect_fold_apps(k, acc, visited)
+
+
+def _collect_rep(e, acc, visited):
+    if e.get_id() in visited:
+        return
+    visited.add(e.get_id())
+    if z3.is_app(e):
+        nm = e.decl().name()
+        if nm.startswith('rep_') and e.num_args() == 1 and e.decl().kind() == z3.Z3_OP_UNINTERPRETED:
+            try:
+                ch = int(nm[4:], 16)
+                acc[(ch, e.arg(0).get_id())] = e.arg(0)
+            except ValueError:
+                pass
+        for k in e.children():
+            _collect_rep(k, acc, visited)
 
 
 def is_seq_like(e):
     return True
+
+
+def _neg_id(e):
+    if is_app(e, z3.Z3_OP_NOT):
+        return e.arg(0).get_id()
+    return z3.Not(e).get_id()
+
+
+def _unit_propagate(ass):
+    """Unit resolution on top-level clauses (Or / Implies): sound, and it turns guarded equalities into
+    top-level ones so that they can be used for substitution."""
+    for _ in range(6):
+        facts = {a.get_id() for a in ass}
+        new = []
+        changed = False
+        for a in ass:
+            lits = None
+            if is_app(a, z3.Z3_OP_OR):
+                lits = list(a.children())
+            elif is_app(a, z3.Z3_OP_IMPLIES):
+                l, r = a.children()
+                lits = [z3.simplify(z3.Not(c)) for c in _conjuncts(l)] + [r]
+            if lits is None:
+                new.append(a)
+                continue
+            rest = [x for x in lits if _neg_id(x) not in facts]
+            if any(x.get_id() in facts for x in lits):
+                new.append(a)
+                continue
+            if len(rest) == 1 and len(lits) > 1:
+                changed = True
+                new.extend(_conjuncts(rest[0]))
+            else:
+                new.append(a)
+        ass = new
+        if not changed:
+            break
+    return ass
+
+
+# ---------------------------------------------------------------------------------------------
+# rep(c, n): n copies of character c, defined by recursion on n (n <= 0 gives the empty string).
+# Only *instances* of the defining equation are ever given to a solver (RecDef.unfold).
+
+_REP = {}
+
+
+def rep(ch, n):
+    """ch: Python int (code point); n: Python int or Int term."""
+    if isinstance(n, int):
+        if _CONCRETE[0]:
+            return CSeq([ch] * max(n, 0))
+        return lit(chr(ch) * max(n, 0))
+    if z3.is_int_value(n):
+        return lit(chr(ch) * max(n.as_long(), 0))
+    if ch not in _REP:
+        _REP[ch] = z3.Function('rep_%x' % ch, Int, Str)
+    return _REP[ch](n)
+
+
+def rep_unfold(ch, n):
+    """Instance of the definition:  rep(n) == (n <= 0 ? eps : rep(n-1) . [ch])  (also as [ch] . rep(n-1),
+    and its length) -- true of the recursively defined function, so sound to assume for any n."""
+    r = rep(ch, n)
+    prev = rep(ch, n - 1)
+    return z3.And(
+        z3.If(n <= 0, r == z3.Empty(Str), r == z3.Concat(prev, z3.Unit(z3.IntVal(ch)))),
+        z3.Length(r) == z3.If(n <= 0, z3.IntVal(0), n))
